@@ -117,7 +117,7 @@ def flushBody (F : LockFacts) (id : Nat) : List (Instr Loc) :=
   [ -- ptr := s.curr      (the clock the sequential model carries is set here)
     .act fun s l => ({ s with clock := id }, { l with ptr := s.curr }),
     -- limit := uint32(s.limit.Hours()); if limit == 0 || ptr.id == id { return }
-    .act fun s l => (s, { l with lim := s.limitHours, go := !(decide (s.limitHours = 0) || decide (l.ptr.id = id)) }),
+    .act fun s l => (s, { l with lim := s.limitHours, go := !(s.limitHours == 0 || l.ptr.id == id) }),
     -- tx, err := db.Begin(true)
     .lock .tx .W (·.go),
     -- s.curr = newUnit(id)
@@ -134,8 +134,8 @@ def flushBody (F : LockFacts) (id : Nat) : List (Instr Loc) :=
 def readBody (F : LockFacts) : List (Instr Loc) :=
   [ -- limit == 0: the fixed empty answer
     .act fun s l =>
-      (s, { l with lim := s.limitHours, go := !decide (s.limitHours = 0),
-                   result := if s.limitHours = 0 then some (.ok emptyResp) else none }),
+      (s, { l with lim := s.limitHours, go := !(s.limitHours == 0),
+                   result := if s.limitHours == 0 then some (.ok emptyResp) else none }),
     -- tx, err := db.Begin(true)
     .lock .tx .W (·.go) ] ++
   optLock .curr F.loadCurr (·.go) ++
@@ -154,7 +154,7 @@ def readBody (F : LockFacts) : List (Instr Loc) :=
     .act fun s l =>
       if l.go then
         (s, { l with units := l.stored ++ [s.curr.serialize],
-                     bad := decide ((l.stored ++ [s.curr.serialize]).length ≠ l.lim) })
+                     bad := (l.stored ++ [s.curr.serialize]).length != l.lim })
       else (s, l) ] ++
   optUnlock .curr F.loadCurr (·.go) ++
   [ -- dataFromUnits(units, curID)
